@@ -165,6 +165,8 @@ struct CustomOut {
 	std::vector<std::string> samples; // human-readable cases
 	bool failed = false;
 	std::vector<uint32_t> fail_tape;
+	bool fail_enumerating = false;                     // the tape is to be read in enumerating mode
+	std::map<std::string, std::string> fail_params;    // extra params the replay needs
 	std::string failmsg;
 };
 void h_custom(long worker, long workers, long seed, std::map<std::string, std::string> &params, CustomOut &o)
